@@ -24,7 +24,7 @@ func init() {
 		Rule: "one object kind per run (queue/handler/actor/pool/cor) drawn from the scenario tape with 1..N user threads and one closer; " +
 			"a run is non-trivial when the close was invoked while at least one user call was in flight or still to come and >=1 context switch happened inside the object's code; " +
 			"distinct = distinct (kind, context-switch signature)" +
-			" Flavours: Close issued from inside a posted function / by a quit message (handler, actor), finishing coroutine as target or as requester, crowd of requesters, pool with the job queue left open.",
+			" Flavours: Close issued from inside a posted function / by a quit message (handler, actor) / by a job or by the panic handler of a panicking job (pool), finishing coroutine as target or as requester, crowd of requesters, pool with the job queue left open.",
 		Real: []string{"fpgo.BufferedChannelQueue (loader, free-node goroutines)", "fpgo.Handler", "fpgo.Actor", "worker.DefaultWorkerPool", "fpgo.Cor", "Go channels/mutexes/timers on the fake clock"},
 		Stub: []string{"goroutine scheduler", "clock", "sync.Pool"},
 	})
@@ -49,7 +49,8 @@ type c15Scenario struct {
 	CloseQueue   bool          `json:"close_queue_with_pool,omitempty"`
 	CloseDelay   int           `json:"close_delay_yields"`
 	CloseSleep   time.Duration `json:"close_sleep"`
-	CloseInside  bool          `json:"close_called_from_inside_a_callback,omitempty"` // handler/actor: the "quit message" idiom
+	CloseInside  bool          `json:"close_called_from_inside_a_callback,omitempty"` // handler/actor: the "quit message" idiom; pool: a job
+	ClosePanics  bool          `json:"close_called_by_the_panic_handler,omitempty"`   // pool: the quit job panics, the panic handler closes the pool
 
 	h         *Hist
 	hung      bool
@@ -107,6 +108,9 @@ func genC15(t *simrt.Tape, tier string) Scenario {
 		sc.PoolMax = 1 + t.Choose(3)
 		sc.PoolStandBy = 1 + t.Choose(sc.PoolMax)
 		sc.CloseQueue = !t.Bool(1, 3)
+		// the pool is closed from inside: by one of its own jobs, or by its panic handler when a job panics (fail-fast policy)
+		sc.CloseInside = t.Bool(1, 3)
+		sc.ClosePanics = sc.CloseInside && t.Bool(1, 2)
 		nu := 1 + t.Choose(maxUsers)
 		for u := 0; u < nu; u++ {
 			n := 1 + t.Choose(maxOps)
@@ -197,7 +201,7 @@ func (sc *c15Scenario) runClosing(s *simrt.Sim, ths []*simrt.Thread, closeFn fun
 		if sc.CloseSleep > 0 {
 			s.Sleep(sc.CloseSleep)
 		}
-		if sc.CloseInside && (sc.Kind == "handler" || sc.Kind == "actor") {
+		if sc.CloseInside && (sc.Kind == "handler" || sc.Kind == "actor" || sc.Kind == "pool") {
 			// closeFn submits the quit message; the Close itself is recorded where it happens
 			h.Do("closer", "submit-quit-message", nil, func() (interface{}, error) { closeFn(); return nil, nil })
 			return
@@ -207,7 +211,7 @@ func (sc *c15Scenario) runClosing(s *simrt.Sim, ths []*simrt.Thread, closeFn fun
 	})
 	ths = append(ths, closer)
 	done := allDone(ths)
-	if sc.CloseInside && (sc.Kind == "handler" || sc.Kind == "actor") {
+	if sc.CloseInside && (sc.Kind == "handler" || sc.Kind == "actor" || sc.Kind == "pool") {
 		all := done
 		done = func() bool { return all() && sc.closeOp != nil && sc.closeOp.Returned }
 	}
@@ -350,6 +354,10 @@ func (sc *c15Scenario) runPool(s *simrt.Sim) {
 	s.NoPreempt(func() { // configuration applied as one step (see harness/c09_pool.go)
 		pool = worker.NewDefaultWorkerPool(q, nil)
 		pool.SetPanicHandler(func(v interface{}) {
+			if v == "c15-quit" && sc.ClosePanics && sc.closeOp == nil {
+				sc.closeOp = h.Do("panic-handler", "Close", nil, func() (interface{}, error) { pool.Close(); return nil, nil })
+				return
+			}
 			sc.extra = append(sc.extra, Violation{Clause: "panic-handler", Fingerprint: "pool:foreign-panic:" + normPanic(v),
 				Detail: fmt.Sprintf("the pool's panic handler was invoked with %q although no job panics in this scenario", fmt.Sprint(v))})
 		})
@@ -379,7 +387,22 @@ func (sc *c15Scenario) runPool(s *simrt.Sim) {
 			}
 		}))
 	}
-	if !sc.runClosing(s, ths, func() { pool.Close() }) {
+	closeFn := func() { pool.Close() }
+	if sc.CloseInside {
+		closeFn = func() {
+			err := pool.Schedule(func() {
+				if sc.ClosePanics {
+					panic("c15-quit")
+				}
+				sc.closeOp = h.Do("pool-worker", "Close", nil, func() (interface{}, error) { pool.Close(); return nil, nil })
+			})
+			if err != nil {
+				sc.closeOp = h.Do("closer", "Close", nil, func() (interface{}, error) { pool.Close(); return nil, nil })
+			}
+		}
+		sc.probes["pool-closed-from-inside"]++
+	}
+	if !sc.runClosing(s, ths, closeFn) {
 		return
 	}
 	sched("main", c15UserOp{Kind: "Schedule"})
